@@ -29,7 +29,9 @@ import (
 	"os"
 	"strings"
 
+	"github.com/grafana/cog/internal/ast"
 	"github.com/grafana/cog/internal/jennies/golang"
+	"github.com/grafana/cog/internal/jennies/python"
 )
 
 const c01PlainSwitches = "-oneOfScalars,-oneOfStructs,-struct.nested,-array.of.struct,-dict.of.struct,-sharedshape,-default"
@@ -153,7 +155,15 @@ func c01Pinned(out *bufio.Writer, dir string) {
 }
 
 func init() {
-	register("c01-src", func(args map[string]string, out *bufio.Writer) error {
+	register("c01-src", func(args map[string]string, out *bufio.Writer) error { return c01SrcStream(args, out, false) })
+	// c11-src: the same cases and documents, plus the REAL post-Python-chain IR; rows
+	//   defschemas <id>.postpy <vir>    and    srcpy <id>.pre <id>.post <id>.postpy <pkg> <root> <doc>
+	// (driver: PlainPyS / PlainS / srcDen on the pre-chain IR, pyDen on the real Python IR, den on the real Go IR)
+	register("c11-src", func(args map[string]string, out *bufio.Writer) error { return c01SrcStream(args, out, true) })
+}
+
+func c01SrcStream(args map[string]string, out *bufio.Writer, py bool) error {
+	{
 		n := argInt(args, "n", 30)
 		ndocs := argInt(args, "docs", 12)
 		nfault := argInt(args, "faults", 6)
@@ -163,7 +173,7 @@ func init() {
 		dir := labWorkDir("c01src")
 		defer os.RemoveAll(dir)
 		faultKinds := []string{"undeclaredKey", "missingRequired", "nullRequired", "wrongType", "notInEnum"}
-		if args["pinned"] != "0" {
+		if args["pinned"] != "0" && !py {
 			c01Pinned(out, dir)
 		}
 		for i := from; i < from+n; i++ {
@@ -212,6 +222,9 @@ func init() {
 					}
 					lr := labRun{Format: f, Path: path, Package: id,
 						GoCfg: &golang.Config{GenerateJSONMarshaller: true, GenerateStrictUnmarshaller: true, GenerateEqual: true, GenerateValidate: true, PackageRoot: labGoModule}}
+					if py {
+						lr.PyCfg = &python.Config{GenerateJSONMarshaller: true}
+					}
 					pre, err := lr.loadSchemas()
 					if err != nil {
 						fmt.Fprintf(out, "-\tskip %s front-end-error %s\tok\n", id, labOneLine(labFirstLine(err.Error())))
@@ -222,6 +235,14 @@ func init() {
 						fmt.Fprintf(out, "-\tskip %s chain-error %s\tok\n", id, labOneLine(labFirstLine(err.Error())))
 						return
 					}
+					var postPy ast.Schemas
+					if py {
+						postPy, _, err = lr.chainIR("python")
+						if err != nil {
+							fmt.Fprintf(out, "-\tskip %s python-chain-error %s\tok\n", id, labOneLine(labFirstLine(err.Error())))
+							return
+						}
+					}
 					rv, err := newRefValidator(f, ro.refText(), d.Root)
 					if err != nil {
 						fmt.Fprintf(out, "-\tskip %s no-reference-validator %s\tok\n", id, labOneLine(shortErr(err)))
@@ -230,9 +251,16 @@ func init() {
 					fmt.Fprintf(out, "-\tcase %s format=%s profile=%d degraded=%v notes=%v src=%s\tok\n", id, f, profile, notes, ro.Notes, d.sexp())
 					fmt.Fprintf(out, "defschemas %s.pre %s\tok\tok\n", id, virSchemas(pre))
 					fmt.Fprintf(out, "defschemas %s.post %s\tok\tok\n", id, virSchemas(post))
+					if py {
+						fmt.Fprintf(out, "defschemas %s.postpy %s\tok\tok\n", id, virSchemas(postPy))
+					}
 					dg := newDocGen(d, newRng(seed*7919+uint64(i)*31+5), defaultDocOpts())
 					emit := func(doc JV, kind string) {
 						valid := rv.validate(doc) == nil
+						if py {
+							fmt.Fprintf(out, "srcpy %s.pre %s.post %s.postpy %s %s %s\tvalid=%v doc=%s\tok\n", id, id, id, id, d.Root, doc.sexp(), valid, kind)
+							return
+						}
 						fmt.Fprintf(out, "srcden %s.pre %s.post %s %s %s\tvalid=%v doc=%s\tok\n", id, id, id, d.Root, doc.sexp(), valid, kind)
 					}
 					for k := 0; k < ndocs; k++ {
@@ -247,5 +275,5 @@ func init() {
 			}
 		}
 		return nil
-	})
+	}
 }
